@@ -22,9 +22,12 @@ Simple == {[k |-> "id", n |-> "i", arg |-> ""], [k |-> "class", n |-> "c", arg |
            [k |-> "pclass", n |-> "hover", arg |-> ""], [k |-> "fpclass", n |-> "nth-child", arg |-> "2n+1"],
            [k |-> "fpclass", n |-> "lang", arg |-> "en"]}
 Heads  == {[k |-> "type", n |-> "a", arg |-> ""], [k |-> "universal", n |-> "*", arg |-> ""]}
-Pels   == {[k |-> "pel", n |-> "::first-line", arg |-> ""], [k |-> "pel", n |-> ":before", arg |-> ""], [k |-> "pel", n |-> "::after", arg |-> ""]}
+\* (the last one is a FUNCTIONAL pseudo-element: '::' directly followed by a function - it counts like every pseudo-element)
+Pels   == {[k |-> "pel", n |-> "::first-line", arg |-> ""], [k |-> "pel", n |-> ":before", arg |-> ""], [k |-> "pel", n |-> "::after", arg |-> ""],
+           [k |-> "pel", n |-> "::slotted(x)", arg |-> ""]}
 NotArgs == Heads \cup {[k |-> "id", n |-> "i", arg |-> ""], [k |-> "class", n |-> "c", arg |-> ""], [k |-> "attr", n |-> "=", arg |-> ""],
-                       [k |-> "pclass", n |-> "hover", arg |-> ""]} \cup Pels      \* (cssutils also takes a pseudo-element as argument: it counts)
+                       [k |-> "pclass", n |-> "hover", arg |-> ""]}
+           \cup {p \in Pels : p.n # "::slotted(x)"}      \* (cssutils also takes a plain pseudo-element as argument: it counts)
 Nots   == {[k |-> "not", n |-> "not", arg |-> x] : x \in NotArgs}
 Combs  == {[k |-> "comb", n |-> c, arg |-> ""] : c \in {" ", ">", "+", "~"}}
 Compounds == Cardinality({i \in 1..Len(parts) : parts[i].k = "comb"}) + 1
